@@ -152,7 +152,10 @@ pub fn c04_case(start: &Pos, moves: &[Move], use_startpos: bool, probes: &[u16],
             // (the repetition record filled by the same call is C10's subject, not judged here)
         }
         // (c) every generated successor, printed and replayed, reproduces itself
-        let succ = catch(|| gen_all(&txt_b, z)).map_err(|e| format!("generate_moves panicked at '{}': {}", p.fen(), e))?;
+        // generated from the generator-chain board while it is alive: that board carries the fields
+        // a real successor chain carries (last move, promotion piece of the move that led here)
+        let parent_for_generation = if gen_alive { &gen_b } else { &txt_b };
+        let succ = catch(|| gen_all(parent_for_generation, z)).map_err(|e| format!("generate_moves panicked at '{}': {}", p.fen(), e))?;
         for s in &succ {
             let t = desc_text(s);
             let mut copy = txt_b.clone();
@@ -219,7 +222,7 @@ pub fn run_c04(ctx: &mut Ctx) {
         v["probes"] = json!(r.probes);
         v
     };
-    run_prop(ctx, "games_from_corpus_and_constructed_starts", move || game_strategy(t.pick(1_440, 600)), t.pick(48_000, 300_000), body, tc);
+    run_prop(ctx, "games_from_corpus_and_constructed_starts", move || game_strategy(t.pick(150, 250)), t.pick(120_000, 900_000), body, tc);
     run_prop(
         ctx,
         "games_from_startpos",
@@ -622,7 +625,7 @@ pub fn run_c05(ctx: &mut Ctx) {
         SEEN.with(|s| c05_case(&start, &moves, st, &mut s.borrow_mut()))?;
         c05_transposition(&start, &moves, st)
     };
-    run_prop(ctx, "histories_three_producers", move || walk_strategy(t.pick(1_200, 600)), t.pick(60_000, 360_000), body, walk_json);
+    run_prop(ctx, "histories_three_producers", move || walk_strategy(t.pick(150, 250)), t.pick(120_000, 900_000), body, walk_json);
     run_prop(
         ctx,
         "short_histories_from_special_starts",
